@@ -655,7 +655,11 @@ func c03CheckDNS(tb drv.TB, rec *drv.Rec, sub string, c c03DNS) {
 	rec.Eval()
 	name := ref.EncodeName(ref.Name(c.Labels))
 	var out packet.DNS
-	if p, sig, st := drv.Catch(func() { out = packet.EncodeDNSQuery(c.ID, c.Flags, name, c.QType) }); p != nil {
+	if p, sig, st := drv.Catch(func() {
+		out = packet.EncodeDNSQuery(c.ID, c.Flags, name, c.QType)
+		// a second query is built before the first is looked at (a batch of queries): the first must not change
+		packet.EncodeDNSQuery(c.ID^0xffff, c.Flags^0x0100, ref.EncodeName(ref.Name{"another", "query", "example"}), c.QType^1)
+	}); p != nil {
 		rec.Violation(tb, sub, "dns-"+sig, c, "EncodeDNSQuery panicked: %v\n%s", p, st)
 		return
 	}
